@@ -86,10 +86,10 @@ def run(ctx, pid):
                 deadlock_check=False, workers=1, timeout=900, name="sim")
     sim = uniq(vlib.parse_sim_behaviours(s.out))
     sim = [b for b in sim if len(b) >= 8]
-    nsim = 260 if quick else 4000
+    nsim = 260 if quick else 1500
     if len(sim) > nsim:
         sim = ctx.rng.sample(sim, nsim)
-    nexh = 372 if quick else 6000
+    nexh = 372 if quick else 2000
     if len(exh) < 300 or len(sim) < 100:
         raise vlib.Infra("schedule generation produced too little (%d exhaustive, %d random)" % (len(exh), len(sim)))
     exh_all = len(exh)
